@@ -10,6 +10,7 @@
 import SnowProofs.Lemmas.CNT
 import SnowProofs.Lemmas.FlakeRun
 import SnowProofs.Props.C03
+import SnowProofs.Lemmas.FlakeCex
 
 namespace Snow.C10
 open Snow Num List Snow.OpCondLemmas Snow.Flake Snow.FlakeLemmas Snow.FlakeRun
@@ -70,6 +71,28 @@ theorem cnt_end_of_hold_exact (oc : OpCond ℝ) (cn : ℝ) (h : C05.WF oc 1) (pr
     cnt = (segments oc.rate 1 oc.start pre).length ∧
     E - pre.length < (cnt : ℝ) ∧ (cnt : ℝ) < E + 2 * pre.length ∧ |(cnt : ℝ) - E| < 2 * pre.length :=
   CNT.cnt_end_of_hold_exact oc cn h pre p rest hsplit hpre hdur hlo hcn hin
+
+/-- **for EVERY trigger temperature of the property's range**: for a well-formed program with
+non-negative hold durations and every `cn` with `end < cn ≤ start`, the split used above EXISTS
+(`pre` = the program's holds at or above `cn`), so `cnt_end_of_hold` applies: whenever the trigger lies
+within the process (`hin`, kept explicit: otherwise the profile is cut by `t_tot` and `cnt` is the last
+second, `cnt_no_sample`), `cnt` is within one second per program segment of the end of the hold at
+`cn` / of the ramp crossing. -/
+theorem cnt_end_of_hold_all (oc : OpCond ℝ) (cn : ℝ) (h : C05.WF oc 1) (hdur : ∀ a ∈ oc.holds, 0 ≤ a.duration)
+    (hlo : oc.stop < cn) (hhi : cn ≤ oc.start) :
+    ∃ (pre : List (Hold ℝ)) (p : Hold ℝ) (rest : List (Hold ℝ)),
+      allHolds oc = pre ++ p :: rest ∧ p.temp < cn ∧ cn ≤ lastTemp oc.start pre ∧
+      ((segments oc.rate 1 oc.start pre).length + ⌊(lastTemp oc.start pre - cn) / oc.rate⌋₊ < nSteps oc.t_tot 1 →
+        let x := (lastTemp oc.start pre - cn) / oc.rate
+        let E := CNT.contEnd oc.rate oc.start pre + x
+        let cnt := cntOf (profile oc 1) cn
+        cnt = (segments oc.rate 1 oc.start pre).length + ⌊x⌋₊ ∧
+        |(cnt : ℝ) - E| < 2 * pre.length + 1) := by
+  obtain ⟨pre, p, rest, e, hp, hc, hsub⟩ := CNT.exists_split_allHolds oc cn h hlo hhi
+  refine ⟨pre, p, rest, e, hp, hc, ?_⟩
+  intro hin
+  have := cnt_end_of_hold oc cn h pre p rest e (fun a ha => hdur a (hsub a ha)) hp hc hin
+  exact ⟨this.1, this.2.2.2⟩
 
 /-- **the first simulation step at or after the trigger time**: `k_CN·dt ≥ cnt`, every earlier
 step is before `cnt` (so `(k_CN−1)·dt < cnt`), `k_CN = ⌈cnt/dt⌉`; and if no step of the process
@@ -220,12 +243,39 @@ theorem cn_all_eligible_fire (p : Params ℝ) (kCN : Nat) (Tsh : ℝ) (s : State
 
 /-! ### non-vacuity -/
 
-/-- the hypotheses of the trigger-time theorems hold on a concrete program with a hold at the
-trigger temperature (start 20, end −20, 1 K/s, hold 10 s at 0 °C, `cnTemp = 0`): the hold ends at
-`E = 30 s` and `cnt = 30`. -/
+/-- every hypothesis set of the theorems above is satisfiable:
+* trigger time: the program `exOc` (start 20, end −20, 1 K/s, hold 10 s at 0 °C, `cnTemp = 0`) is
+  well formed, its hold durations are non-negative, `end < cn ≤ start`, the hold ends at `E = 30 s`
+  and `cnt = 30` (so `hin` holds: `30 < 101`);
+* trigger step (`kCN_first_step`): with `N = 101`, `dt = 2` some step reaches `cnt` (`k = 15`);
+* `cn_prefix_identical`: a run with at least one step (`cexInp 2`, `N = 3`, `j = 0`);
+* `cn_all_eligible_fire`: in the initial state of that run vial 0 is liquid, its temperature after the
+  sensible update (−20 °C) is below `T_eq_l = 0`, and the drawn dice (`[0]`) are below 1. -/
 theorem nonvacuous :
     C05.WF CNT.exOc 1 ∧ cntOf (profile CNT.exOc 1) 0 = 30 ∧
-      CNT.contEnd CNT.exOc.rate CNT.exOc.start [⟨0, 10⟩] = 30 :=
-  ⟨CNT.nonvacuous_cnt.1, CNT.nonvacuous_cnt_value.1, CNT.nonvacuous_cnt_value.2⟩
+      CNT.contEnd CNT.exOc.rate CNT.exOc.start [⟨0, 10⟩] = 30 ∧
+      (∀ a ∈ CNT.exOc.holds, 0 ≤ a.duration) ∧ CNT.exOc.stop < 0 ∧ (0 : ℝ) ≤ CNT.exOc.start ∧
+      (∃ k, k < 101 ∧ ((cntOf (profile CNT.exOc 1) 0 : ℕ) : ℝ) ≤ (k : ℝ) * 2) ∧
+      0 < nSteps (FlakeCex.cexInp 2).oc.t_tot (FlakeCex.cexInp 2).p.dt ∧
+      (0 < (init (FlakeCex.cexInp 2)).vials.size ∧
+        (∀ x ∈ drawn (init (FlakeCex.cexInp 2)), x < 1) ∧
+        (vAt (init (FlakeCex.cexInp 2)) 0).sigma = 0 ∧
+        liquidTemp (FlakeCex.cexInp 2).p.c (FlakeCex.cexInp 2).p.dt
+          (heatFlow (FlakeCex.cexInp 2).p (temps (init (FlakeCex.cexInp 2))) (-20) (-20) 0)
+          (vAt (init (FlakeCex.cexInp 2)) 0).T < (FlakeCex.cexInp 2).p.c.T_eq_l) := by
+  refine ⟨CNT.nonvacuous_cnt.1, CNT.nonvacuous_cnt_value.1, CNT.nonvacuous_cnt_value.2, ?_, ?_, ?_, ?_, ?_, ?_⟩
+  · intro a ha; simp [CNT.exOc] at ha; rw [ha]; norm_num
+  · simp [CNT.exOc]
+  · simp [CNT.exOc]
+  · refine ⟨15, by norm_num, ?_⟩
+    rw [CNT.nonvacuous_cnt_value.1]; norm_num
+  · have := FlakeCex.cex_NN2
+    simp only [FlakeStatsLemmas.NN] at this
+    rw [this]; norm_num
+  · refine ⟨by simp [init, FlakeCex.cexInp], ?_, by simp [vAt, init, FlakeCex.cexInp], ?_⟩
+    · intro x hx
+      simp [drawn, anyLiquid, isLiquid, init, FlakeCex.cexInp] at hx
+      rw [hx]; norm_num
+    · simp [vAt, init, FlakeCex.cexInp, temps, heatFlow, qInt, hExt, hShelf, hDiag, hOff, liquidTemp]
 
 end Snow.C10
